@@ -240,6 +240,11 @@ func genRound(t *rapid.T, exists uint32, syncLiterals bool) []*cmdSpec {
 					nm := fmt.Sprintf("box%d", j)
 					if k := countKind(cmds, "LIST"); k > 0 {
 						nm = fmt.Sprintf("l%d-box%d", k, j)
+					} else if !c.listStatus && rapid.IntRange(0, 2).Draw(t, label+".sharedname") == 0 {
+						// the names STATUS commands of the same round ask about
+						// (plain LIST only: with RETURN (STATUS) a pipelined
+						// STATUS for a listed mailbox is ambiguous by protocol)
+						nm = []string{"alpha", "beta", "gamma", "delta"}[j]
 					}
 					attrs := rapid.SampledFrom([]string{"", "", `\HasChildren`, `\Noselect`}).Draw(t, label+".attrs")
 					c.data = append(c.data, fmt.Sprintf(`* LIST (%s) "/" %s`, attrs, nm))
@@ -635,10 +640,23 @@ func (r *run) round(t *rapid.T, idx int) (outOfOrder, sawUpdate bool) {
 		}
 		return false
 	}
-	for _, st := range plan {
+	skip := map[int]bool{}
+	for pi, st := range plan {
 		c := cmds[st.cmd]
-		if c.refused {
+		if c.refused || skip[st.cmd] {
 			continue
+		}
+		// RFC 9051 5.5: a server working on two commands at once may send the
+		// STATUS response of a pipelined STATUS command before the tagged
+		// completion of a plain LIST (no RETURN (STATUS)) it is still busy
+		// with; that STATUS data belongs to the STATUS command
+		var early *cmdSpec
+		if c.kind == "LIST" && !c.listStatus && pi+1 < len(plan) {
+			if n := cmds[plan[pi+1].cmd]; n.kind == "STATUS" && !n.refused && rapid.Bool().Draw(t, "status-before-list-completion") {
+				early = n
+				skip[plan[pi+1].cmd] = true
+				ev.Class("status-data-before-completion-of-plain-LIST")
+			}
 		}
 		for _, u := range st.updates {
 			if strings.HasSuffix(u.line, "EXPUNGE") && expungePending() {
@@ -658,9 +676,18 @@ func (r *run) round(t *rapid.T, idx int) (outOfOrder, sawUpdate bool) {
 				}
 			}
 		}
+		if early != nil {
+			for _, d := range early.data {
+				r.send(strings.ReplaceAll(d, "%TAG%", early.tag))
+			}
+		}
 		what := c.kind + " done"
 		r.send(c.out.line(c.tag, what))
 		completed[st.cmd] = true
+		if early != nil {
+			r.send(early.out.line(early.tag, "STATUS done"))
+			completed[plan[pi+1].cmd] = true
+		}
 	}
 	// every command completes exactly once with its own status and data
 	for i, c := range cmds {
@@ -1025,6 +1052,43 @@ func TestPropRouting(t *testing.T) {
 			s.Close()
 		}()
 		r.m.state = imap.ConnStateNotAuthenticated
+		// sometimes commands are refused before anybody has logged in: the
+		// mirrored state must stay "not authenticated"
+		for i, n := 0, rapid.SampledFrom([]int{0, 0, 0, 1, 2}).Draw(t, "prelogin"); i < n; i++ {
+			kind := rapid.SampledFrom([]string{"SELECT", "EXAMINE", "LOGIN", "STATUS"}).Draw(t, "prelogin-cmd")
+			status := rapid.SampledFrom([]string{"NO", "NO", "BAD"}).Draw(t, "prelogin-status")
+			pre := make(chan error, 1)
+			go func() {
+				switch kind {
+				case "SELECT":
+					_, err := r.c.Select("early", nil).Wait()
+					pre <- err
+				case "EXAMINE":
+					_, err := r.c.Select("early", &imap.SelectOptions{ReadOnly: true}).Wait()
+					pre <- err
+				case "STATUS":
+					_, err := r.c.Status("early", &imap.StatusOptions{NumMessages: true}).Wait()
+					pre <- err
+				default:
+					pre <- r.c.Login("nobody", "wrong").Wait()
+				}
+			}()
+			cmd, err := s.ReadCommand()
+			if err != nil {
+				r.fail("%s before login: %v", kind, err)
+			}
+			r.send(cmd.Tag + " " + status + " not before you have logged in")
+			select {
+			case err := <-pre:
+				if err == nil {
+					r.fail("%s answered %s before login: the client reports success", kind, status)
+				}
+			case <-time.After(10 * time.Second):
+				r.fail("%s answered %s before login: the call never returned", kind, status)
+			}
+			r.checkMirror("after " + kind + " was refused (" + status + ") before login")
+			ev.Class("refused-before-login:" + kind)
+		}
 		// login
 		done := make(chan error, 1)
 		go func() { done <- r.c.Login("u", "p").Wait() }()
